@@ -215,7 +215,7 @@ static void product(report& r)
         if (r.want(base + " vegas stored" + cfg))
         {
             std::vector<E> gens = {g0};
-            auto chk = hep::make_vegas_chkpt<T, E>(4, T(1.5), g0);
+            auto chk = hep::make_vegas_chkpt<T, E>(4, T(0.75), g0);
             for (sz k = 0; k != its.size(); ++k)
             {
                 chk = hep::vegas(hep::make_integrand<T>(pattern_fn<T>{pat}, d), std::vector<sz>{its[k]}, chk, never());
@@ -227,7 +227,7 @@ static void product(report& r)
         {
             std::vector<E> gens = {g0};
             vf::pl_map<T> map; map.split = {T(0.25), T(0.5), T(0.75)}; map.dims = d;
-            auto chk = hep::make_multi_channel_chkpt<T, E>(std::vector<T>{T(0), T(1), T(3)}, T(), T(0.25), g0);
+            auto chk = hep::make_multi_channel_chkpt<T, E>(std::vector<T>{T(0), T(1), T(3)}, T(0.0078125), T(0.5), g0);
             for (sz k = 0; k != its.size(); ++k)
             {
                 chk = hep::multi_channel(hep::make_multi_channel_integrand<T>(pattern_mc_fn<T>{pattern_fn<T>{pat}, false}, d, map, d, 3),
